@@ -178,6 +178,7 @@ type ExploreOpts struct {
 	Deadline    time.Time
 	MapOrder    bool
 	SchedBudget int // -1 deterministic
+	Race        bool // happens-before data race monitor (race.go)
 	Witnesses   bool
 	// Prefixes restricts the exploration to the subtrees below these decision prefixes (nil = whole tree).
 	Prefixes [][]int
@@ -267,6 +268,7 @@ func (e *Engine) runPath(pkg *ssa.Package, f *ssa.Function, cs int, prefix []int
 	c := e.Ctx
 	c.startPath(prefix)
 	sched = newScheduler()
+	raceReset(opts.Race)
 	rec = &PathRecord{Case: cs}
 	defer func() {
 		if r := recover(); r != nil {
@@ -292,6 +294,15 @@ func (e *Engine) runPath(pkg *ssa.Package, f *ssa.Function, cs int, prefix []int
 		}
 		if rec.Outcome == "panic" || rec.Outcome == "deadlock" || rec.Outcome == "budget" {
 			cex = append(cex, Cex{Label: rec.Outcome, Kind: rec.Outcome, Msg: rec.Msg, Assignment: rec.Witness, Decisions: rec.DecisionsV, Class: c.class})
+		}
+		if race.on && rec.Outcome != "infeasible" && rec.Outcome != "assume" {
+			for _, loc := range race.order {
+				w := rec.Witness
+				if w == nil {
+					w = c.witness()
+				}
+				cex = append(cex, Cex{Label: "no-data-race", Kind: "race", Msg: race.found[loc], Assignment: w, Decisions: append([]int(nil), c.decisions...), Class: loc})
+			}
 		}
 		c.endPath()
 	}()
